@@ -35,6 +35,7 @@ func vHTTPSReq(tag string, host, scheme, path string, tlsOn bool, withFwd bool) 
 
 var vHostPort = regexp.MustCompile(`^[a-z0-9.-]{0,8}(:[0-9]{0,5})?$`)
 
+// the force-https redirect decision and target ignore X-Forwarded-* with reverse-proxy off
 // verif: unwind=9 strlen=14
 func vh_C16_https() {
 	host := ndString("host")
